@@ -34,7 +34,7 @@ func init() {
 		Subs: []*run.Sub{
 			{Name: "metamorphic", N: func(t string) uint64 {
 				if t == "thorough" {
-					return 300_000
+					return 800_000
 				}
 				return 20_000
 			}, Run: c16Case, CaseCPU: 120,
